@@ -214,7 +214,7 @@ func c08xrd(c *Ctx, rule, pkg, stopName string, composite bool) {
 	d := delCRD[0]
 	c.requireCross(site(d)+" crd-created", d, wcTrue, "WasCreated(crd)==true")
 	c.requireCross(site(d)+" crd-controlled", d, icTrue, "IsControlledBy(crd, d)==true")
-	c.requireCross(site(d)+" list-ok", d, okEdges(list[0]), "the success edge of List(instances)")
+	c.requireCross(site(d)+" list-ok", d, okEdges(list[0], "Ignore(IsNoMatchError)"), "the success edge of List(instances) (no-match: the kind is not served, so there are no instances)")
 	c.requireCross(site(d)+" no-instances", d, empty, "the len(l.Items)==0 edge")
 	c.requireCross(site(d)+" after-stop", d, stopOK, "the success edge of engine.Stop")
 	for _, s := range stops {
@@ -342,8 +342,11 @@ func c08usage(c *Ctx) {
 	c.requireCross(site(rm[0])+" deleted", rm[0], wdTrue, "WasDeleted(u)==true")
 }
 
-func c08engine(c *Ctx) {
-	c.R.Rule("R8.6", "engine.Stop: nil for a running controller only after every source stopped, cancel() and delete(controllers); StoppableSource.Stop clears reg only after RemoveEventHandler succeeded", 5,
+func c08engine(c *Ctx) { engineStopRule(c, "R8.6") }
+
+// engineStopRule is shared by C08 (R8.6) and C13 (R13.9).
+func engineStopRule(c *Ctx, id string) {
+	c.R.Rule(id, "engine.Stop: nil for a running controller only after every source stopped, cancel() and delete(controllers); StoppableSource.Stop clears reg only after RemoveEventHandler succeeded", 5,
 		"a controller reported stopped that still has event handlers or a live context keeps reconciling instances of a CRD that is about to be deleted")
 	fn := c.method("internal/engine", "ControllerEngine", "Stop")
 	if fn != nil {
